@@ -57,22 +57,26 @@ def run(ctx):
                     nf += sum(r['actions'].get('VoteFail', 0) for r in rr)
                     res += rr
             cov['faults_injected'] = nf
+            cov['quota_refusals'] = sum(r['actions'].get('StoreQuota', 0) for r in res)
+            if not cov['quota_refusals'] and not ctx.violations:
+                raise RuntimeError('vacuous run: no store was refused by the quota')
         cov[kind] = S.judge(ctx, res, kind, focus=aborted)
         cov[kind]['sample'] = res[0]['sig'][:25]
     nf = cov.pop('faults_injected', 0)
+    nq = cov.pop('quota_refusals', 0)
     ev = sum(v['behaviours'] for v in cov.values())
     return ctx.finish({
         'evaluations': ev,
         'distinct_nontrivial': sum(v['nontrivial'] for v in cov.values()),
         'rule': 'TLC -simulate behaviours of ZStorage under the full Next and under NextAbort (abort enabled at every phase: after begin, '
-                'after each store, after a refused call, after vote; over-long metadata refused at begin; calls with a '
+                'after each store, after a refused call, after vote; over-long metadata refused at begin; stores refused by the file-size quota (StoreQuota); calls with a '
                 'foreign transaction in every state); after every abort the full query table must equal the table before '
                 'the begin (specification action property AbortRestores), the data file must be byte-identical to the '
                 'file before the begin, and later transactions in the same behaviour must commit with the answers the '
                 'specification gives; non-trivial = contains an abort and a commit',
         'traces_validated_against_impl': ev,
         'per_storage': cov,
-        'vote_faults_injected': nf,
+        'vote_faults_injected': nf, 'stores_refused_by_quota': nq,
         'samples': [cov[k]['sample'] for k in cov],
         'exhaustive': False,
     }, ASSUME)
